@@ -2,10 +2,12 @@ package main
 
 import (
 	"context"
+	stderrors "errors"
 	"sync/atomic"
 	"time"
 
 	"github.com/acquirecloud/golibs/kvs"
+	"github.com/acquirecloud/golibs/kvs/inmem"
 	kvredis "github.com/acquirecloud/golibs/kvs/redis"
 	"github.com/alicebob/miniredis/v2"
 	"github.com/go-redis/redis/v8"
@@ -80,6 +82,95 @@ func driveKvWaitPrompt(opt *Options) error {
 			}
 			tw.Emit(map[string]any{"e": "prompt", "change": s.change, "idle_ms": idle.Milliseconds(), "late_ms": late,
 				"stall_ms": atomic.LoadInt64(&stall), "res": errClass(werr)})
+			break
+		}
+	}
+	return driveKvWaitDeadline(tw)
+}
+
+// Waiters whose context carries a DEADLINE (not only a cancel function), on both backends:
+//
+//	none    nothing changes: the call returns the context's error, and only once the context is done;
+//	expire  (in-memory) the record runs out long before the deadline and nobody touches the key: ErrNotExist, promptly.
+func driveKvWaitDeadline(tw *TraceWriter) error {
+	type sc struct {
+		backend, change string
+		timeout         time.Duration
+	}
+	var scs []sc
+	for _, be := range []string{"inmem", "redis"} {
+		for _, d := range []time.Duration{35 * time.Millisecond, 120 * time.Millisecond, 333 * time.Millisecond} {
+			scs = append(scs, sc{be, "none", d})
+		}
+	}
+	scs = append(scs, sc{"inmem", "expire", 2500 * time.Millisecond}, sc{"inmem", "expire", 1500 * time.Millisecond})
+	for _, s := range scs {
+		for attempt := 0; attempt < 3; attempt++ {
+			var st kvs.Storage
+			var mr *miniredis.Miniredis
+			if s.backend == "redis" {
+				var err error
+				if mr, err = miniredis.Run(); err != nil {
+					return err
+				}
+				st = kvredis.New(&redis.Options{Addr: mr.Addr()})
+			} else {
+				st = inmem.New()
+			}
+			ctx := context.Background()
+			r := kvs.Record{Key: "k", Value: []byte("v1")}
+			expireIn := 60 * time.Millisecond
+			var expAt time.Time
+			if s.change == "expire" {
+				expAt = time.Now().Add(expireIn)
+				r.ExpiresAt = &expAt
+			}
+			rec, err := st.Put(ctx, r)
+			if err != nil {
+				return err
+			}
+			var stall int64
+			stop := make(chan struct{})
+			go func() {
+				last := time.Now()
+				for {
+					select {
+					case <-stop:
+						return
+					default:
+					}
+					time.Sleep(2 * time.Millisecond)
+					n := time.Now()
+					if over := n.Sub(last) - 2*time.Millisecond; over.Milliseconds() > atomic.LoadInt64(&stall) {
+						atomic.StoreInt64(&stall, over.Milliseconds())
+					}
+					last = n
+				}
+			}()
+			c, cancel := context.WithTimeout(ctx, s.timeout)
+			t0 := time.Now()
+			var werr error
+			callPanics(func() { werr = st.WaitForVersionChange(c, "k", rec.Version) })
+			t1 := time.Now()
+			ctxDone := c.Err() != nil // read right after the return: "the context's error only if the context is done"
+			cancel()
+			close(stop)
+			if mr != nil {
+				mr.Close()
+			}
+			if atomic.LoadInt64(&stall) > 150 && attempt < 2 {
+				continue
+			}
+			res := errClass(werr)
+			if stderrors.Is(werr, context.DeadlineExceeded) || stderrors.Is(werr, context.Canceled) {
+				res = "ctxerr"
+			}
+			late := t1.Sub(t0.Add(s.timeout)).Milliseconds()
+			if s.change == "expire" {
+				late = t1.Sub(expAt).Milliseconds()
+			}
+			tw.Emit(map[string]any{"e": "deadline", "backend": s.backend, "change": s.change, "timeout_ms": s.timeout.Milliseconds(),
+				"late_ms": late, "ctxdone": ctxDone, "stall_ms": atomic.LoadInt64(&stall), "res": res})
 			break
 		}
 	}
